@@ -232,3 +232,104 @@ Proof. induction fuel as [|f IH]; intros s HB; [constructor|]. cbn [chop188].
 
 Theorem read_pmt_total stream pid : is_bytes stream -> total (read_pmt stream pid).
 Proof. intros HB. unfold read_pmt. apply read_pkts_total; [apply chop188_ok; exact HB|constructor]. Qed.
+
+(* ---------- FilterPMTPacketsToPids on any list of 188-byte packets and any PID list ---------- *)
+Lemma pkt_header_total p : len p = 188 -> exists h, pkt_header p = Ok h.
+Proof. intros L. unfold pkt_header, payload_start, pkt_has_af.
+  destruct (idx_not_panic p 3) as [x3 H3]; [lia|]. destruct (idx_not_panic p 4) as [x4 H4]; [lia|].
+  rewrite H3. cbn [bind]. destruct (bit x3 32); [rewrite H4|]; cbn [bind].
+  - destruct (N.ltb_spec (len p) (4 + 1 + x4)); apply slice_total; lia.
+  - rewrite L. cbn [N.ltb N.compare Pos.compare Pos.compare_cont]. apply slice_total; lia. Qed.
+Lemma repacketise_total : forall pkts f, Forall (fun p => len p = 188) pkts -> total (repacketise pkts f).
+Proof. induction pkts as [|p t IH]; intros f H; [exact I|]. inversion H; subst. cbn [repacketise].
+  destruct (pkt_header_total p) as [h Hh]; [assumption|]. rewrite Hh. cbn [bind]. destruct f as [|b f']; [exact I|].
+  apply total_bind; [apply IH; assumption|intros; exact I]. Qed.
+Lemma concat_payloads_total : forall pkts, Forall (fun p => is_bytes p /\ len p = 188) pkts ->
+  total (concat_payloads pkts) /\ (forall r, concat_payloads pkts = Ok r -> is_bytes r).
+Proof. induction pkts as [|p t IH]; intros H; [split; [exact I|intros r E; inversion E; constructor]|].
+  inversion H as [|? ? [HB L] H']; subst. cbn [concat_payloads]. destruct (pkt188_reads p L) as (_ & _ & T).
+  destruct (pkt_payload p) as [b|e| |] eqn:E; cbn in T; try contradiction; [|split; [exact I|discriminate]].
+  destruct (IH H') as [T2 K2]. destruct (concat_payloads t) as [r|e| |]; cbn in T2; try contradiction; cbn [bind].
+  - split; [exact I|]. intros r0 E0. inversion E0; subst. apply is_bytes_app; [eapply pkt_payload_bytes; eassumption|apply K2; reflexivity].
+  - split; [exact I|discriminate]. Qed.
+
+Lemma filter_streams_shape want : forall fuel pl offset bound cs out r,
+  filter_streams fuel pl offset bound cs want out = Ok r -> exists ext, r = out ++ ext.
+Proof. induction fuel as [|f IH]; intros pl offset bound cs out r H; cbn [filter_streams] in H; [discriminate|].
+  destruct (offset <? bound); [|inversion H; exists []; rewrite app_nil_r; reflexivity].
+  destruct (idx pl (w16 (offset + 1))); cbn [bind] in H; try discriminate.
+  destruct (idx pl (w16 (offset + 2))); cbn [bind] in H; try discriminate.
+  destruct (idx pl (w16 (offset + 3))); cbn [bind] in H; try discriminate.
+  destruct (idx pl (w16 (offset + 4))); cbn [bind] in H; try discriminate.
+  match type of H with (if ?c then _ else _) = _ => destruct c end; [discriminate|].
+  match type of H with context [existsb ?f want] => destruct (existsb f want) end.
+  - match type of H with context [slice ?a ?b ?c] => destruct (slice a b c) as [s| | |] end; cbn [bind] in H; try discriminate.
+    apply IH in H. destruct H as [ext ->]. exists (s ++ ext). rewrite app_assoc. reflexivity.
+  - cbn [bind] in H. apply IH in H. exact H. Qed.
+
+Lemma filter_streams_total want : forall fuel pl offset sl out,
+  is_bytes pl -> 13 <= sl -> sl < 1024 -> 3 + sl <= len pl ->
+  (0 < fuel)%nat -> sl - 5 < N.of_nat fuel + offset ->
+  total (filter_streams fuel pl offset (sl - 5) (sl - 1) want out).
+Proof. induction fuel as [|f IH]; intros pl offset sl out HB H13 HS HL HF0 HF; [lia|]. cbn [filter_streams].
+  destruct (N.ltb_spec offset (sl - 5)) as [Lt|Ge]; [|exact I].
+  rewrite (w16_small (offset + 1)), (w16_small (offset + 2)), (w16_small (offset + 3)), (w16_small (offset + 4)) by lia.
+  destruct (idx_not_panic pl (offset + 1)) as [b1 H1]; [lia|]. destruct (idx_not_panic pl (offset + 2)) as [b2 H2]; [lia|].
+  destruct (idx_not_panic pl (offset + 3)) as [b3 H3]; [lia|]. destruct (idx_not_panic pl (offset + 4)) as [b4 H4]; [lia|].
+  rewrite H1, H2, H3, H4. cbn [bind].
+  pose proof (field12_bound b3 b4 (is_bytes_idx _ _ _ HB H4)) as IL.
+  set (il := N.lor (N.shiftl (N.land b3 15) 8) b4) in *.
+  rewrite (w16_small (offset + 5 + il)) by lia. rewrite (w16_small (offset + (5 + il))) by lia.
+  destruct (N.ltb_spec (sl - 1) (offset + 5 + il)) as [Over|Fits]; [exact I|].
+  match goal with |- context [existsb ?f want] => destruct (existsb f want) end.
+  - destruct (slice_total pl offset (offset + 5 + il)) as [s Hs]; [lia|lia|]. rewrite Hs. cbn [bind]. apply IH; try assumption; lia.
+  - cbn [bind]. apply IH; try assumption; lia. Qed.
+
+Theorem filter_pmt_packets_total pkts want :
+  Forall (fun p => is_bytes p /\ len p = 188) pkts -> total (filter_pmt_packets pkts want).
+Proof. intros HP. unfold filter_pmt_packets. destruct pkts as [|first tl]; [exact I|]. destruct want as [|w0 wt]; [exact I|].
+  set (W := w0 :: wt). destruct (concat_payloads_total _ HP) as [T1 K1].
+  apply total_bind; [exact T1|]. intros payload EP. pose proof (K1 _ EP) as HB.
+  apply total_bind; [apply new_pmt_total; exact HB|]. intros pm _.
+  inversion HP as [|? ? [HBf Lf] HP']; subst. destruct (pkt188_reads first Lf) as (_ & (q & Hq) & _). rewrite Hq. cbn [bind].
+  match goal with |- total (if ?c then _ else _) => destruct c end; [exact I|].
+  set (pf1 := Psi.pointer_field payload + 1).
+  destruct (N.ltb_spec (len payload) (pf1 + 12)) as [Short|Long]; [exact I|].
+  rewrite slice_from_ok by lia. cbn [bind].
+  set (pl := dropN pf1 payload).
+  assert (HBpl: is_bytes pl) by (apply is_bytes_skipn; exact HB).
+  assert (Lpl: len pl = len payload - pf1) by (unfold pl, dropN, len; rewrite skipn_length; lia).
+  pose proof (section_length'_bound pl HBpl) as SB. set (sl := Psi.section_length' pl) in *.
+  destruct (N.ltb_spec sl 13) as [S13|G13]; [exact I|].
+  destruct (N.ltb_spec (len payload) (pf1 + 3 + sl)) as [Sh2|Lg2]; [exact I|]. cbn [orb].
+  destruct (slice_total payload 0 pf1) as [head Hhead]; [lia|lia|]. rewrite Hhead. cbn [bind].
+  destruct (slice_total pl 0 12) as [f12 Hf12]; [lia|lia|]. rewrite Hf12. cbn [bind].
+  destruct (idx_not_panic pl 10) as [p10 H10]; [lia|]. destruct (idx_not_panic pl 11) as [p11 H11]; [lia|].
+  rewrite H10, H11. cbn [bind].
+  pose proof (field12_bound p10 p11 (is_bytes_idx _ _ _ HBpl H11)) as PB.
+  set (pil := N.lor (N.shiftl (N.land p10 15) 8) p11) in *.
+  replace (sub16 (w16 (3 + sl)) 4) with (sl - 1) by (unfold sub16, w16; lia).
+  rewrite (w16_small (12 + pil)) by lia.
+  destruct (N.ltb_spec (sl - 1) (12 + pil)) as [PO|PF]; [exact I|].
+  assert (exists pinfo, (if pil =? 0 then Ok [] else slice pl 12 (12 + pil)) = Ok pinfo) as [pinfo Hpi].
+  { destruct (pil =? 0); [eexists; reflexivity|apply slice_total; lia]. }
+  rewrite Hpi. cbn [bind]. rewrite stream_bound_total by lia.
+  destruct (slice_len _ _ _ _ Hhead) as (LH & _ & _). destruct (slice_len _ _ _ _ Hf12) as (L12 & _ & _).
+  pose proof (filter_streams_total W (S (length pl)) pl (12 + pil) sl (head ++ f12 ++ pinfo) HBpl G13 SB) as FT.
+  assert (FT': total (filter_streams (S (length pl)) pl (12 + pil) (sl - 5) (sl - 1) W (head ++ f12 ++ pinfo))).
+  { apply FT; [lia|lia|]. unfold len in *. lia. }
+  destruct (filter_streams (S (length pl)) pl (12 + pil) (sl - 5) (sl - 1) W (head ++ f12 ++ pinfo)) as [f|e| |] eqn:EF;
+    cbn in FT'; try contradiction; cbn [bind]; [|exact I].
+  destruct (filter_streams_shape _ _ _ _ _ _ _ _ EF) as [ext ->].
+  set (F := (head ++ f12 ++ pinfo) ++ ext).
+  assert (LF: pf1 + 12 <= len F) by (unfold F; rewrite !len_app; lia).
+  destruct (idx_not_panic F (pf1 + 1)) as [o1 Ho1]; [lia|]. rewrite Ho1. cbn [bind].
+  unfold set_idx. replace (pf1 + 1 <? len F) with true by lia. cbn [bind].
+  assert (LU: forall l i v, length (upd l i v) = length l).
+  { intros l i v. unfold upd. generalize (N.to_nat i). induction l as [|a t IHl]; intros n; [reflexivity|]. destruct n; cbn [upd_nat length]; [reflexivity|rewrite IHl; reflexivity]. }
+  set (F1 := upd F (pf1 + 1) _). assert (LF1: len F1 = len F) by (unfold len, F1; rewrite LU; reflexivity).
+  replace (pf1 + 2 <? len F1) with true by lia. cbn [bind].
+  set (F2 := upd F1 (pf1 + 2) _). assert (LF2: len F2 = len F) by (rewrite <- LF1; unfold len, F2; rewrite LU; reflexivity).
+  rewrite slice_from_ok by lia. cbn [bind].
+  apply total_bind; [|intros; exact I]. apply repacketise_total.
+  eapply Forall_impl; [|exact HP]. intros a [_ La]. exact La. Qed.
